@@ -33,18 +33,52 @@ pub struct Error {
     pub span: Span,
 }
 
+/// The diagnostic carries the offending line as its source text, so the label has to be
+/// expressed as byte offsets within that line (pest reports absolute offsets and 1-based
+/// character columns).
+fn line_relative_span(error: &pest::error::Error<Rule>) -> Span {
+    let line = error.line();
+
+    let to_offset = |column: usize| {
+        line.char_indices()
+            .nth(column.saturating_sub(1))
+            .map(|(offset, _)| offset)
+            .unwrap_or(line.len())
+    };
+
+    match error.line_col {
+        pest::error::LineColLocation::Pos((_, column)) => {
+            let offset = to_offset(column);
+            Span::new(offset, offset)
+        }
+        pest::error::LineColLocation::Span((start_line, start_column), (end_line, end_column)) => {
+            let start = to_offset(start_column);
+
+            let end = if start_line == end_line {
+                to_offset(end_column)
+            } else {
+                line.len()
+            };
+
+            Span::new(start, end.max(start))
+        }
+    }
+}
+
 impl From<pest::error::Error<Rule>> for Error {
     fn from(error: pest::error::Error<Rule>) -> Self {
+        let span = line_relative_span(&error);
+
         match &error.variant {
             pest::error::ErrorVariant::ParsingError { positives, .. } => Error {
                 message: format!("expected {positives:?}"),
                 src: error.line().to_string(),
-                span: error.location.into(),
+                span,
             },
             pest::error::ErrorVariant::CustomError { message } => Error {
                 message: message.clone(),
                 src: error.line().to_string(),
-                span: error.location.into(),
+                span,
             },
         }
     }
